@@ -1,7 +1,8 @@
 #!/bin/bash
 # run every registered check at a tier (default quick) and validate the evidence files against the schema
 tier=${1:-quick}
-cd /verif
+cd "$(dirname "${BASH_SOURCE[0]}")/.."
+export VERIF_DIR=$(pwd)
 ids=$(python3 -c "import json;print(' '.join(c['property_id'] for c in json.load(open('MANIFEST.json'))['checks']))")
 rc=0
 for id in $ids; do
@@ -13,12 +14,14 @@ for id in $ids; do
 done
 python3-vt - <<'PY'
 import json,jsonschema,sys
-m=json.load(open('/verif/MANIFEST.json'))
+import os
+V=os.environ.get('VERIF_DIR','/verif')
+m=json.load(open(V+'/MANIFEST.json'))
 jsonschema.validate(m,json.load(open('/root/.vp/MANIFEST.schema.json')))
 sch=json.load(open('/root/.vp/EVIDENCE.schema.json'))
 for c in m['checks']:
     try:
-        e=json.load(open(c['evidence_file'])); jsonschema.validate(e,sch)
+        e=json.load(open(c['evidence_file'].replace('/verif', V, 1))); jsonschema.validate(e,sch)
         assert e['level']==c['level_claimed']['category'], "level mismatch"
         print("evidence ok:",c['property_id'],e['tier'],e['coverage']['evaluations'],e['coverage']['distinct_nontrivial'],"violations",e.get('violations'))
     except Exception as ex:
